@@ -57,7 +57,7 @@ reg("C08", "proof", ["contracts.diffop:DiffIntermediate", "contracts.diffop:Mome
     ["gbasis.integrals._diff_operator_int._compute_differential_operator_integrals_intermediate", "gbasis.integrals.momentum.MomentumIntegral.construct_array_contraction",
     "gbasis.integrals.angular_momentum.AngularMomentumIntegral.construct_array_contraction"])
 
-reg("C10", "proof", ["contracts.spherical:Harmonics", "contracts.spherical:Conventions"],
+reg("C10", "proof", ["contracts.spherical:Harmonics", "contracts.spherical:Conventions", "contracts.spherical:AllCartesianOrdersL3"],
     ["gbasis.spherical.generate_transformation", "gbasis.spherical.real_solid_harmonic", "gbasis.spherical.harmonic_norm",
      "gbasis.spherical.expansion_coeff", "gbasis.spherical.shift_factor",
      "gbasis.contractions.GeneralizedContractionShell.angmom_components_cart/_sph/num_cart/num_sph"])
